@@ -93,6 +93,7 @@ int main()
         if (line.empty())
             continue;
         auto f = vh::fields(line);
+        vh::case_alarm(300); // per-case watchdog: a hang becomes the observation abort:timeout for this case
         bool empty = line.rfind("empty ", 0) == 0;
         std::cout << vs::guarded([&] { return empty ? run_empty(f) : run_proj(f); }) << std::endl;
     }
